@@ -149,3 +149,81 @@ def _entry_sites(repo):
     lean = ("def c17LoaderEntrySites : List (String × String × String) := ["
             + ", ".join(f"({lean_str(a)}, {lean_str(b)}, {lean_str(c)})" for a, b, c in sites) + "]")
     return [list(s) for s in sites], lean
+
+
+def _norm(stmt):
+    return re.sub(r"\s+", "", stmt)
+
+
+@item("C17_SAFE_JOIN_LOOP")
+def _safe_join_loop(repo):
+    """the SHAPE of safe_join's loop: what `rv` starts as, what is iterated, the statements of the
+    loop body after the filter (`rv.push(<loop variable>)` and nothing else), how often the loop
+    variable, the name and the base are mentioned, and what is returned.  One split, one filter,
+    one push per segment, all three on the same variable."""
+    src = read(repo, LOADER)
+    body = _strip_comments(fn_body(src, r"pub fn safe_join\(base: &Path, template: &str\) -> Option<PathBuf>\s*\{"))
+    m = re.search(r"for\s+(\w+)\s+in\s+(.*?)\s*\{", body, re.S)
+    if not m:
+        raise KeyError("safe_join: no `for <var> in <iter> {`")
+    var, it = m.group(1), _norm(m.group(2))
+    init = [_norm(x) for x in body[:m.start()].split(";") if x.strip()]
+    loop = fn_body(body[m.start():], r"for\s+\w+\s+in[^{]*\{")
+    c = re.search(r"^\s*if\s+(.*?)\s*\{\s*return\s+None\s*;\s*\}", loop, re.S)
+    if not c:
+        raise KeyError("safe_join: the loop does not start with `if <cond> { return None; }`")
+    after = [_norm(x) for x in loop[c.end():].split(";") if x.strip()]
+    # what follows the loop
+    k = body.index(loop, m.start()) + len(loop)
+    tail = _norm(body[k:].lstrip().lstrip("}"))
+
+    def uses(v, text):
+        return len(re.findall(r"(?<![\w.])%s\b" % re.escape(v), text))
+    cond_vars = sorted(set(re.findall(r"(?<![\w.'\"])([a-z_]\w*)\s*\.", c.group(1))))
+    lean = (f"def c17LoopInit : List String := [{', '.join(lean_str(x) for x in init)}]\n"
+            f"def c17LoopVar : String := {lean_str(var)}\n"
+            f"def c17LoopIter : String := {lean_str(it)}\n"
+            f"def c17LoopFilterSubjects : List String := [{', '.join(lean_str(x) for x in cond_vars)}]\n"
+            f"def c17LoopAfterFilter : List String := [{', '.join(lean_str(x) for x in after)}]\n"
+            f"def c17LoopTail : String := {lean_str(tail)}\n"
+            f"def c17LoopVarUsesAfterFilter : Nat := {uses(var, loop[c.end():])}\n"
+            f"def c17SafeJoinTemplateUses : Nat := {uses('template', body)}\n"
+            f"def c17SafeJoinBaseUses : Nat := {uses('base', body)}")
+    return {"init": init, "var": var, "iter": it, "filter_subjects": cond_vars, "after_filter": after, "tail": tail,
+            "var_uses_after_filter": uses(var, loop[c.end():]), "template_uses": uses("template", body),
+            "base_uses": uses("base", body)}, lean
+
+
+@item("C17_PATH_PRODUCERS")
+def _path_producers(repo):
+    """every function of the engine and of the crates that ship with it (contrib, autoreload) —
+    tests, the verification hooks and the build-time embed crate aside — whose body mentions the
+    file system or builds a path: `PathBuf`, `Path::`, `&Path`, `fs::`, `File::`, `OsStr`,
+    `std::path`, `std::env::current_dir`, `read_to_string`, `canonicalize`."""
+    import glob, os
+    pat = re.compile(r"\bPathBuf\b|\bPath::|&\s*Path\b|\bfs::|\bFile::|\bOsStr\b|\bOsString\b|std::path\b|current_dir\b|read_to_string\b|canonicalize\b|AsRef<Path>")
+    out = []
+    for crate in ("minijinja", "minijinja-contrib", "minijinja-autoreload"):
+        for path in sorted(glob.glob(os.path.join(repo, crate, "src/**/*.rs"), recursive=True)):
+            rel = crate + "/" + os.path.relpath(path, os.path.join(repo, crate, "src"))
+            if os.path.basename(path).startswith("verif_hooks"):
+                continue
+            text = open(path, encoding="utf-8").read()
+            # blank comments (doc examples mention paths), keep offsets
+            text = re.sub(r"//[^\n]*", lambda mm: " " * len(mm.group(0)), text)
+            # raw-string documentation (`#[doc = r#"…"#]`) holds example code
+            text = re.sub(r'r#".*?"#', lambda mm: " " * len(mm.group(0)), text, flags=re.S)
+            cut = text.find("#[cfg(test)]\nmod tests")
+            if cut >= 0:
+                text = text[:cut]
+            fns = list(re.finditer(r"\bfn\s+(\w+)", text))
+            for mm in pat.finditer(text):
+                before = [f for f in fns if f.start() < mm.start()]
+                if not before:
+                    continue      # a `use` line
+                s = (rel, before[-1].group(1))
+                if s not in out:
+                    out.append(s)
+    lean = ("def c17PathProducers : List (String × String) := ["
+            + ", ".join(f"({lean_str(a)}, {lean_str(b)})" for a, b in out) + "]")
+    return [list(s) for s in out], lean
